@@ -246,6 +246,26 @@ def run(prog, ctx):
         ctx.ok("W4", "store() keeps the quotes flag it is given", qs[0].where, render(qs[0]))
     else:
         ctx.fail("W4", "store() keeps the quotes flag it is given", st_fn.where, "stores %s" % [render(s) for s in qs], key="store-quotes")
+    # the flag is only ever raised, and only when the value starts with a quote
+    qdefs = [(lhs, rhs, st) for lhs, rhs, st in L.fn.assignments() if (lhs["name"] if isinstance(lhs, dict) else render(lhs)) == "quote_seen"]
+    badq = None
+    for lhs, rhs, st in qdefs:
+        cv = rhs.const_value()
+        if isinstance(lhs, dict):
+            if cv != 0:
+                badq = (st, "starts as %s" % render(rhs))
+        elif cv == 1:
+            okq, cutq = L.cfg.all_paths_cut(L.cfg.block_of(st), lambda lit, b, i: lit is not None and lit.kind == "eq" and lit.pol and ord('"') in (lit.lhs.const_value(), lit.rhs.const_value()),
+                                            start=L.header)
+            if not (okq and cutq):
+                badq = (st, "raised without a quote test")
+        else:
+            badq = (st, "`%s`: the flag is withdrawn for some quoted values, which are then written without quotes (a value containing the comment "
+                        "character or outer blanks does not survive)" % render(st))
+    if qdefs and badq is None:
+        ctx.ok("W4", "the quotes flag reflects the opening quote of the value", qdefs[-1][2].where, "false at the start of each line, true exactly behind `*data == '\"'`")
+    elif badq:
+        ctx.fail("W4", "the quotes flag reflects the opening quote of the value", badq[0].where, badq[1], key="quote-flag-defs")
     qa = set(render(c.call_args()[L.idx["quotes"]]) for c in L.store_calls if render(c.call_args()[L.idx["append_entry"]]) in ("0", "false"))
     if "quote_seen" in qa and qa <= {"quote_seen", "0", "false"}:
         ctx.ok("W4", "the parser passes what it saw on that line", L.store_calls[-1].where, "quotes argument of the new-entry calls: %s" % sorted(qa))
